@@ -84,6 +84,46 @@ CHECKS = {
         note="PARTIAL: RequestContext.to_policy_values is oslo.context (exercised only).",
         technique="Lean 4 proof (case analysis, unbounded in scope list and tree) + exhaustive correspondence table",
         design="§7 C08"),
+    'C09': dict(
+        text="Theorems for all layer contents: layers - the store a new enforcer computes maps every name to its last "
+             "definition in the order registered default < policy file < configured directories in configured order < files "
+             "in sorted name order (induction over layers; insertion sort proved a sorted permutation; dot-files and "
+             "sub-directories filtered); undefined names stay undefined; missing file/directories skipped; "
+             "policy_file_choice - the file-choice function equals the documented sentence. C10.fresh_is_compute links "
+             "`compute` to the loader. Correspondence: random layerings with real files (JSON or YAML each) and the complete "
+             "file-choice table against oslo.config.",
+        note="PARTIAL: JSON/YAML equivalence and oslo.config find_file/location tracking are library behaviour (exercised only).",
+        technique="Lean 4 proof (induction over layers, sorting lemma, decision function) + differential correspondence with real files",
+        design="§7 C09"),
+    'C10': dict(
+        text="Theorem history: for every initial file system and EVERY finite sequence of file operations (write/touch/delete on "
+             "the main file and directory files, each stamped with a fresh larger time) interleaved with plain and forced "
+             "loads, the next load of the long-lived enforcer yields exactly the rule store of a brand-new enforcer (which by "
+             "C09 is the last definition in layer order). Proved by an inductive invariant with a ghost snapshot of the file "
+             "system at the last load (invariant_initial, invariant_step, next_load_is_compute); vanished main file = empty. "
+             "Correspondence: all short histories + random histories to 40 steps with real files and os.utime against real "
+             "long-lived/fresh enforcers; the model's file-operation semantics is compared with observed snapshots.",
+        note="os.path.getmtime/listdir/walk and the file parsers are library behaviour; directory creation/removal is outside the alphabet.",
+        technique="Lean 4 proof (state-machine invariant / refinement to `compute`, unbounded histories) + differential correspondence",
+        design="§7 C10"),
+    'C11': dict(
+        text="Theorems: table - for every registered default (unique name), file contents and flag, the loader installs exactly "
+             "`governs` (the documented override table) under its name; new_override_governs, old_override_governs, "
+             "alias_does_not_govern, no_override (+ or_decides), nothing_else (dependence only on the entries under the new "
+             "and old name). Correspondence: all rows of the table x check-string pairs from the expression generator x role "
+             "subsets with real files; oracle written from the statement.",
+        note="policy files parsed by the JSON/YAML libraries.",
+        technique="Lean 4 proof (table = model of _handle_deprecated_rule, for all trees) + differential correspondence",
+        design="§7 C11"),
+    'C12': dict(
+        text="Theorems: load_twice / load_many - along any history, further loads (plain or forced, any number) leave the rule "
+             "store unchanged, so a merged deprecated OrCheck cannot grow; merge_idempotent. Correspondence (this is where "
+             "aliasing is caught): scripts over {load, forced load, enforce, edit} across 1..3 REAL enforcers sharing one list "
+             "of RuleDefault objects vs independent model instances; identity/attribute snapshots of the shared objects; "
+             "controls built from private copies.",
+        note="PARTIAL: non-mutation of caller objects is about copy.deepcopy / Python aliasing (correspondence only).",
+        technique="Lean 4 proof (corollary of the C10 invariant) + differential correspondence with shared real objects",
+        design="§7 C12"),
     'C13': dict(
         text="Theorems: exact - check_rules() is false iff some rule references an undefined rule or can reach a reference "
              "cycle, stated on the reference graph (all rule: leaves incl. under not), both directions, for all rule sets: the "
@@ -113,6 +153,17 @@ CHECKS = {
         note="PARTIAL: jsonutils dumps/loads trusted.",
         technique="Lean 4 proof (printer layout lemma + parser simulation) + differential correspondence",
         design="§7 C15"),
+    'C20': dict(
+        text="The property is FALSE for the current code: inplace_violates is a machine-checked counterexample (two-thread "
+             "small-step model of the in-place rebuild, by decide) and the deterministic scheduler reproduces it on the real "
+             "Enforcer (known findings F10-*). Proved instead: decisions taken while no reload is in progress are old-or-new "
+             "(sequential schedules), and the build-then-publish variant is old-or-new for ALL schedules (swap_safe). The check "
+             "enumerates every one-switch schedule at source-line granularity for four reload scenarios, compares the set of "
+             "obtainable decisions with the model's, prints KNOWN-FINDING for the recorded windows and reports any mixed "
+             "decision outside them (other scenario, other thread, outside load_rules).",
+        note="PARTIAL: preemption at source-line boundaries inside the library (the property's own granularity); bytecode-level interleavings not explored.",
+        technique="Lean 4 proof (decide witness; invariant over all schedules for the safe variant) + exhaustive one-switch schedule enumeration on the real code",
+        design="§7 C20"),
 }
 
 NOT_YET = "no check built yet in this session (planned, see DESIGN.md §7); not claimed until its theorem and correspondence suite exist"
